@@ -26,7 +26,13 @@ func sp(s string) *string { return &s }
 // the same strings as Proofs/Access_proofs.v [lookalikes]
 var lookalikes = []string{"relay:admin ", " relay:admin", "Relay:Admin", "RELAY:ADMIN", "relay:Admin", "admin", "relay", "relay:", "relay:admi",
 	"relay:admins", "relay:admin:", "relay-admin", "relay.admin", "relay:admin,relay:stats", "relay:admin relay:stats",
-	"relay:stats", "read", "write", "host", "client", "", "*", "relay:*"}
+	"relay:stats", "read", "write", "host", "client", "", "*", "relay:*",
+	// Unicode compatibility look-alikes (equal to the keyword only after NFKC / case folding): full-width letters,
+	// full-width and small colon, modifier / superscript / mathematical letters, long s, Kelvin-style homoglyphs
+	"\uff52\uff45\uff4c\uff41\uff59\uff1a\uff41\uff44\uff4d\uff49\uff4e", "relay\uff1aadmin", "relay\ufe55admin", "\u02b3elay:admin",
+	"relay:admi\u207f", "relay:\U0001d41admin", "relay:\uff41dmin", "relay:adm\u2139n", "\uff52elay:admin",
+	"relay\uff1astats", "relay:\u017ftats", "relay:stat\u02e2", "\uff52\uff45\uff4c\uff41\uff59\uff1a\uff53\uff54\uff41\uff54\uff53", "relay:\uff53tats",
+	"relay:admin\u200b", "\ufeffrelay:admin", "relay:admin\u00a0", "re\u00adlay:admin"}
 
 type scopeSet struct {
 	class  string
@@ -371,6 +377,24 @@ func work(a lib.Args) {
 		n++
 	}
 
+	genLookalike := func(r *lib.Rng, rt, la string) {
+		e := mocks[r.Bool()]
+		now := int64(1600000000 + r.Intn(200000000))
+		name := "c09-" + strconv.Itoa(n)
+		adm := acc.ScopeBearer(e.Cfg.Host, now, []string{"relay:admin"})
+		auth := acc.ScopeBearer(e.Cfg.Host, now, []string{la, "read"})
+		auth.Label = "good"
+		x := mkReq(rt, auth, "", 0)
+		ld := mkReq("listdeny", adm, "", 0)
+		la2 := mkReq("listallow", adm, "", 0)
+		d0 := mkReq("deny", adm, "den-"+name, now+1000)
+		a0 := mkReq("allow", adm, "alw-"+name, now+1000)
+		ops := []acc.Op{{K: "req", Req: &d0}, {K: "req", Req: &a0}, {K: "req", Req: &ld}, {K: "req", Req: &la2}, {K: "req", Req: &x}, {K: "req", Req: &ld}, {K: "req", Req: &la2}}
+		cases = append(cases, acc.Case{Name: name, T0: now, Ops: ops, Cfg: e.Cfg, Mode: "mock"})
+		metas = append(metas, meta{kind: "lists", x: 4, class: "lookalike", before: []int{2, 3}, after: []int{5, 6}})
+		n++
+	}
+
 	genBystander := func(r *lib.Rng) {
 		e := real
 		now := time.Now().Unix()
@@ -509,6 +533,15 @@ func work(a lib.Args) {
 				}
 			}
 		}
+		// every look-alike spelling (ASCII and Unicode) on a list endpoint and on /status, with an otherwise good token
+		for _, la := range lookalikes {
+			// spellings that resemble the stats scope go to /status, all others to a list endpoint
+			rt := "listdeny"
+			if la != "relay:stats" && (strings.Contains(la, "tat") || strings.Contains(la, "\uff54\uff41\uff54")) {
+				rt = "status"
+			}
+			genLookalike(rng.Fork(), rt, la)
+		}
 		for i := 0; i < a.Pick(40, 400); i++ {
 			genBystander(rng.Fork())
 		}
@@ -537,6 +570,8 @@ func work(a lib.Args) {
 
 	// mock cases sequentially (shared clock), bystander cases on the relay in parallel workers
 	strad := 0
+	leaks := map[int][]leak{}
+	portProbes := 0
 	var mu sync.Mutex
 	var wg sync.WaitGroup
 	sem := make(chan struct{}, 6)
@@ -576,7 +611,7 @@ func work(a lib.Args) {
 		}
 		wg.Add(1)
 		sem <- struct{}{}
-		go func(c *acc.Case) {
+		go func(c *acc.Case, i int) {
 			defer wg.Done()
 			defer func() { <-sem }()
 			orig := append([]acc.Op{}, c.Ops...)
@@ -585,7 +620,21 @@ func work(a lib.Args) {
 				renameCase(c, try)
 				rn := acc.NewRunner(real, c.Name+"-"+strconv.Itoa(try))
 				rn.NoteBooking(1, *c.Ops[3].Req.Bid)
+				var found []leak
+				probed := i%4 == 0 // a quarter of the whole-relay cases also ask every port for the well-known paths
+				rn.AfterOp = func(orig int, o *acc.Op, out *acc.Out) {
+					if probed && orig == 2 && o.Req != nil && o.Req.Route == "status" { // the bystander is joined and listed
+						markers := []string{c.Ops[0].Req.ID, *c.Ops[3].Req.Bid, "verif-" + c.Name + "-" + strconv.Itoa(try) + "-ua"}
+						found = probePorts(real, markers)
+					}
+				}
 				rn.Run(c)
+				mu.Lock()
+				leaks[i] = found
+				if probed {
+					portProbes++
+				}
+				mu.Unlock()
 				rn.Close()
 				if !rn.Strad {
 					return
@@ -595,7 +644,7 @@ func work(a lib.Args) {
 				mu.Unlock()
 			}
 			c.Tags = append(c.Tags, "discarded-clock-tick")
-		}(c)
+		}(c, i)
 	}
 	wg.Wait()
 
@@ -625,6 +674,10 @@ func work(a lib.Args) {
 			idx = []string{lib.N(uint64(executedIndex(c, metas[i].x)))}
 			if metas[i].kind == "bystander" {
 				oracleHist(c, kept, res) // every call of the whole-relay history is judged, not only X
+				for _, l := range leaks[i] {
+					res.Violate(lib.Violation{Clause: "stats-only", Case: kept, Key: "stats-only:no-token:" + l.where[strings.LastIndex(l.where, "/"):], Replay: c,
+						Detail: fmt.Sprintf("%s without any token answered %d with a body that contains %q - metadata of a live connection (topic / booking id / User-Agent) outside the access API's /status", l.where, l.status, l.marker)})
+				}
 			}
 		}
 		coq = append(coq, lib.Tuple(c.Coq(), lib.List(idx)))
@@ -653,6 +706,8 @@ func work(a lib.Args) {
 		res.Sample(c)
 	}
 	res.CountN("retried:clock-tick", strad)
+	res.CountN("port-probes:cases", portProbes)
+	res.CountN("port-probes:paths-per-port", len(wellKnownPaths))
 	res.Evaluations = kept
 	if err := acc.WriteShards(a.Out, "C09", coq, res.ShardSize); err != nil {
 		fmt.Fprintln(os.Stderr, err)
